@@ -77,7 +77,7 @@ def unit_escape_pairs(a):
     sweep(stats, ({"sub": "row", "row": r, "doc": True} for r in ["| - |", "| --- | --- |", "| :-: |", "|-|", "| - | x |", "|---|---|", "| -- | :-: |", "| :-- | --: |", "| = | = |", "|===|", "| + | + |", "|:|",
                                                                  "| - | - | - |", "| -|- |", "|--", "| --- |---",
                                                                  # markup that means a line break / an entity elsewhere is plain text in a cell
-                                                                 "| a<br>b |", "| <br/> |", "| x <BR /> y | <br> |", "| a<br>0 |", "| &lt;br&gt; | &#124; | &nbsp; |", "| <p>x</p> |", "| \\<br> |"]), check_row)
+                                                                 "| caf\\u00e9 |", "| a\\u0020 |", "| \\u007Cb | c |", "| \\x41 | \\101 | \\N{DASH} |", "| \\U0001F600 |", "| {\"name\": \"caf\\u00e9\"} |", "| a<br>b |", "| <br/> |", "| x <BR /> y | <br> |", "| a<br>0 |", "| &lt;br&gt; | &#124; | &nbsp; |", "| <p>x</p> |", "| \\<br> |"]), check_row)
     sweep(stats, ({"sub": "row", "row": ctxt % ("\\" + c), "doc": True} for c in chars for ctxt in ("| %s |", "|%s|", "| C:%semp | b |", "| a%s", "| \\%s |")), check_row)
     return stats
 
@@ -207,7 +207,7 @@ def st_shape(draw):
         for _ in range(draw(st.integers(1, 2))):
             i = draw(st.integers(1, n - 1))
             counts[i] = draw(st.integers(0, 5))
-    return {"sub": "shape", "counts": counts, "where": draw(st.sampled_from(["data", "examples", "bgdata"])),
+    return {"sub": "shape", "counts": counts, "where": draw(st.sampled_from(["data", "examples", "bgdata", "examples-stepless", "examples-second-block", "rule-examples-stepless"])),
             "indents": [draw(st.integers(0, 6)) for _ in range(n)],
             "escapes": draw(st.booleans()), "follow": draw(st.sampled_from(["", "step", "scenario", "comment"]))}
 
@@ -218,13 +218,19 @@ def check_shape(case, stats):
         head = ["Feature: f", " Scenario: s", "  Given x"]
     elif case["where"] == "bgdata":
         head = ["Feature: f", " Background:", "  Given x"]
+    elif case["where"] == "examples-stepless":
+        head = ["Feature: f", " Scenario Outline: s", " Examples:"]
+    elif case["where"] == "rule-examples-stepless":
+        head = ["Feature: f", " Rule: r", "  Scenario Outline: s", "   description", "  Examples:"]
+    elif case["where"] == "examples-second-block":
+        head = ["Feature: f", " Scenario Outline: s", " Examples: fine", "  | a |", "  | 1 |", " @t", " Examples:"]
     else:
         head = ["Feature: f", " Scenario Outline: s", "  Given x", " Examples:"]
     rows = []
     for i, n in enumerate(counts):
         cell = " \\| " if case["escapes"] else " c "
         rows.append(" " * case["indents"][i] + "|" + "".join(cell + "|" for _ in range(n)))
-    tail = {"": [], "step": ["  And y"] if case["where"] != "examples" else [" Examples:"],
+    tail = {"": [], "step": ["  And y"] if not case["where"].endswith(("examples", "stepless", "block")) else [" Examples:"],
             "scenario": [" Scenario: t"], "comment": ["# c"]}[case["follow"]]
     text = "\n".join(head + rows + tail) + "\n"
     first_bad = next((i for i, n in enumerate(counts) if n != counts[0]), None)
